@@ -39,6 +39,27 @@ CLAIMS = {
   design_ref="DESIGN.md section 5, C14",
   note=_TB + "Concurrency is discovered from gather() sites only (the two dispatchers' own code).",
   technique="static analysis: CFG path rules, call-graph reachability for re-entrancy, taint across await, context-manager restore rule"),
+ "C18": dict(
+  text="Lost-wake-up rule over every writer of the pending-subscription set in the base client and all subclasses (class "
+       "hierarchy from mypy), atomic clear/read/swap on the consumer side, reconnect-loop shape, per-connection "
+       "re-marking of all channels before the tasks start, back-off stamp and sleep dominating every connect, routing by "
+       "the message's own stream/channel with the stream table filled from the subscribed channels, keep-alive scheduled "
+       "per channel and re-armed in finally, sibling cross-check of listen-key channels (create and refresh on the same "
+       "account client). Convergence after arbitrary fault sequences and 'at least once per period' are liveness/timing "
+       "and are not claimed.",
+  design_ref="DESIGN.md section 5, C18",
+  note=_TB + "asyncio.Event semantics; aiohttp's async-for over a websocket ends when the connection closes.",
+  technique="static analysis: pairing (add -> set) on the CFG, loop-shape lint, dominance queries, sibling cross-check"),
+ "C19": dict(
+  text="Bar.__init__ abstractly interpreted over all 75 weak orderings of {open,high,low,close} (exhaustive: accepted "
+       "exactly when low <= open, close <= high; stores the same-named parameter), writers of the OHLC attributes, "
+       "window tiling of the trade aggregator decided with affine time forms (no gap, no overlap on a microsecond clock), "
+       "row-key -> Bar-parameter mapping of every RowParser implementation, event time = bar start + period, period "
+       "tables derived from step tables, sort selection and key, BOM table evaluated as constants (no shadowed entry, "
+       "BOM/codec pairs). The OHLCV aggregation arithmetic and non-UTF-8 files without BOM are not claimed.",
+  design_ref="DESIGN.md section 5, C19",
+  note=_TB + "Weak-ordering interpreter sa/absint.py; stdlib codecs constants; datetime has microsecond resolution.",
+  technique="static analysis: abstract interpretation over weak orderings (exhaustive), affine time forms, data-flow mapping lint, constant-table evaluation"),
 }
 
 NOT_APPLICABLE = {}
